@@ -534,3 +534,11 @@ mod tests {
     }
 }
 
+
+/// Verification hook (feature `verif`): read-only view of the inbound alias table.
+#[cfg(feature = "verif")]
+pub(crate) fn verif_inbound_aliases(resolver: &InboundAliasResolver) -> Vec<(u16, String)> {
+    let mut aliases: Vec<(u16, String)> = resolver.current_aliases.iter().map(|(alias, topic)| (*alias, topic.clone())).collect();
+    aliases.sort();
+    aliases
+}
